@@ -25,3 +25,142 @@ pub fn cone_nvars<T>(c: &SupportedConeT<T>) -> usize {
 pub fn new_collapsed<T: FloatT>(cones: &[SupportedConeT<T>]) -> Vec<SupportedConeT<T>> {
     SupportedConeT::new_collapsed(cones)
 }
+
+/// hash-free units of the chordal decomposition code (sdp feature)
+#[cfg(feature = "sdp")]
+pub mod chordal {
+    use crate::algebra::*;
+    use crate::solver::chordal as ch;
+    use std::ops::Range;
+
+    pub struct VDsu(ch::DisjointSetUnion);
+    impl VDsu {
+        pub fn new(n: usize) -> Self {
+            Self(ch::DisjointSetUnion::new(n))
+        }
+        pub fn union(&mut self, x: usize, y: usize) {
+            self.0.union(x, y)
+        }
+        pub fn in_same_set(&mut self, x: usize, y: usize) -> bool {
+            self.0.in_same_set(x, y)
+        }
+        pub fn root(&mut self, x: usize) -> usize {
+            ch::verif_hooks_dsu::root(&mut self.0, x)
+        }
+        pub fn parents(&self) -> &[usize] {
+            ch::verif_hooks_dsu::parents(&self.0)
+        }
+    }
+    pub fn kruskal(E: &mut CscMatrix<isize>, num_cliques: usize) {
+        ch::verif_hooks_cg::kruskal(E, num_cliques)
+    }
+    pub fn max_elem(A: &CscMatrix<isize>) -> (usize, usize) {
+        ch::verif_hooks_cg::max_elem(A)
+    }
+    pub fn find_neighbors(edges: &CscMatrix<isize>, c: usize) -> Vec<usize> {
+        ch::verif_hooks_cg::find_neighbors(edges, c)
+    }
+    pub fn find_aggregate_sparsity_mask<T: FloatT>(A: &CscMatrix<T>, b: &[T]) -> Vec<bool> {
+        ch::verif_hooks_ci::find_aggregate_sparsity_mask(A, b)
+    }
+    pub fn connect_graph<T: FloatT>(L: &mut CscMatrix<T>) {
+        ch::verif_hooks_ci::connect_graph(L)
+    }
+    pub fn parent_from_L<T: FloatT>(L: &CscMatrix<T>) -> Vec<usize> {
+        ch::verif_hooks_snt::parent_from_L(L)
+    }
+    pub fn add_subblock_map(H_I: &mut Vec<usize>, clique_vertices: &[usize], row_start: usize) {
+        ch::verif_hooks_as::add_subblock_map(H_I, clique_vertices, row_start)
+    }
+    pub fn get_row_index(k: usize, rowval: &[usize], row_range: Range<usize>, row_range_col: Range<usize>) -> Option<usize> {
+        ch::verif_hooks_ac::get_row_index(k, rowval, row_range, row_range_col)
+    }
+    pub fn parent_block_indices(parent_clique: &[usize], i: usize, j: usize) -> usize {
+        ch::verif_hooks_ac::parent_block_indices(parent_clique, i, j)
+    }
+    pub fn get_block_indices(snode: &[usize], separator: &[usize], nv: usize) -> Vec<(usize, usize, bool)> {
+        ch::verif_hooks_ac::get_block_indices(snode, separator, nv)
+    }
+    pub fn get_rows_subset(rows: &[usize], row_range: Range<usize>) -> Option<Range<usize>> {
+        ch::verif_hooks_ac::get_rows_subset(rows, row_range)
+    }
+    pub fn alternating_sequence<T: FloatT>(total_length: usize, n_start: usize) -> Vec<T> {
+        ch::verif_hooks_ac::alternating_sequence(total_length, n_start)
+    }
+    pub fn extra_columns(total_length: usize, n_start: usize, start_val: usize) -> Vec<usize> {
+        ch::verif_hooks_ac::extra_columns(total_length, n_start, start_val)
+    }
+    pub fn number_of_overlaps_in_rows<T: FloatT>(A: &CscMatrix<T>) -> (Vec<usize>, Vec<T>) {
+        ch::verif_hooks_rs::number_of_overlaps_in_rows(A)
+    }
+}
+
+pub fn backtrack_search<T: FloatT>(
+    dq: &[T],
+    q: &[T],
+    α_init: T,
+    α_min: T,
+    step: T,
+    is_in_cone_fcn: impl Fn(&[T]) -> bool,
+    work: &mut [T],
+) -> T {
+    crate::solver::core::cones::verif_hooks_ns::backtrack_search(dq, q, α_init, α_min, step, is_in_cone_fcn, work)
+}
+
+/// public newtype around the crate-private `PrintTarget`
+pub struct VPrintTarget(pub(crate) crate::io::PrintTarget);
+
+impl VPrintTarget {
+    pub fn new_default() -> Self {
+        Self(crate::io::PrintTarget::default())
+    }
+    pub fn new_sink() -> Self {
+        Self(crate::io::PrintTarget::Sink(std::io::sink()))
+    }
+    pub fn new_buffer() -> Self {
+        Self(crate::io::PrintTarget::Buffer(Vec::new()))
+    }
+    pub fn new_stream(s: Box<dyn std::io::Write + Send + Sync>) -> Self {
+        Self(crate::io::PrintTarget::Stream(s))
+    }
+    pub fn write(&mut self, buf: &[u8]) -> std::io::Result<usize> {
+        std::io::Write::write(&mut self.0, buf)
+    }
+    pub fn write_all(&mut self, buf: &[u8]) -> std::io::Result<()> {
+        std::io::Write::write_all(&mut self.0, buf)
+    }
+    pub fn flush(&mut self) -> std::io::Result<()> {
+        std::io::Write::flush(&mut self.0)
+    }
+    pub fn print_to_sink(&mut self) {
+        crate::io::ConfigurablePrintTarget::print_to_sink(&mut self.0)
+    }
+    pub fn print_to_buffer(&mut self) {
+        crate::io::ConfigurablePrintTarget::print_to_buffer(&mut self.0)
+    }
+    pub fn print_to_stream(&mut self, s: Box<dyn std::io::Write + Send + Sync>) {
+        crate::io::ConfigurablePrintTarget::print_to_stream(&mut self.0, s)
+    }
+    pub fn get_print_buffer(&mut self) -> std::io::Result<String> {
+        crate::io::ConfigurablePrintTarget::get_print_buffer(&mut self.0)
+    }
+    pub fn buffer_bytes(&self) -> Option<&[u8]> {
+        match &self.0 {
+            crate::io::PrintTarget::Buffer(b) => Some(b.as_slice()),
+            _ => None,
+        }
+    }
+    /// 0 stdout, 1 file, 2 buffer, 3 stream, 4 sink
+    pub fn kind(&self) -> u8 {
+        match &self.0 {
+            crate::io::PrintTarget::Stdout(_) => 0,
+            crate::io::PrintTarget::File(_) => 1,
+            crate::io::PrintTarget::Buffer(_) => 2,
+            crate::io::PrintTarget::Stream(_) => 3,
+            crate::io::PrintTarget::Sink(_) => 4,
+        }
+    }
+    pub fn clone_target(&self) -> Self {
+        Self(self.0.clone())
+    }
+}
